@@ -17,7 +17,9 @@ BUDGET = {"quick": 200, "thorough": 1500}
 def configs(tier):
     cs = [Config(levels=2, ndisks=3, contents=["c0/content", "c1/content"]), Config(levels=1, ndisks=2, uuid=True),
           # the second disk is configured but still empty (never recorded in the content file)
-          Config(levels=1, ndisks=2, tag="second-empty")]
+          Config(levels=1, ndisks=2, tag="second-empty"),
+          # reduced hash size: the content file records the parity sizes (newer content format)
+          Config(levels=2, ndisks=2, hashsize=8)]
     if tier == "thorough":
         cs += [Config(levels=3, ndisks=3, splits={0: 2, 1: 2, 2: 2}, parity_limit=6144, hashsize=8)]
     return cs
@@ -52,6 +54,10 @@ def triggers(cfg):
     for l in range(cfg.levels):
         t.append(("parity-short:%d" % l, [("truncparity", l)], ("-F",), None))
         t.append(("parity-short-R:%d" % l, [("truncparity", l)], ("-R",), None))
+        # ... shortened by LESS than a block (1 byte, 100 bytes, a block minus one byte) and by a block and a bit
+        for nb, label in ((1, "1"), (100, "100"), (-1, "block-1"), (-1025, "block+1")):
+            # (no override is judged here: a parity file that is not a whole number of blocks is refused on its own account, -F or not)
+            t.append(("parity-short-by-%s:%d" % (label, l), [("truncparity", l, nb)], None, None))
     t.append(("blocksize-changed", [], None, ("blocksize", 2)))
     t.append(("hashsize-changed", [], None, ("hashsize", 8 if cfg.hashsize == 16 else 16)))
     for d in populated:
@@ -67,8 +73,13 @@ def arm(L, ops):
             # truncate the last non-empty split file by one block
             for p in reversed(paths):
                 if os.path.exists(p) and os.path.getsize(p) >= c.block_size:
+                    nb = op[2] if len(op) > 2 else c.block_size
+                    if nb == -1:
+                        nb = c.block_size - 1
+                    elif nb < 0:
+                        nb = c.block_size - nb - 1024
                     with open(p, "r+b") as f:
-                        f.truncate(os.path.getsize(p) - c.block_size)
+                        f.truncate(max(0, os.path.getsize(p) - nb))
                     break
         else:
             X.apply_op(L, op)
@@ -170,6 +181,8 @@ def trigger_job(j):
                 break
         edit_conf(L, edit, undo=True)
         r2 = L.run("sync")
+    elif override is None:
+        return dict(viols=v, rc=res.rc)
     else:
         r2 = L.run("sync", *override)
     if r2.rc != 0:
